@@ -1,6 +1,8 @@
 """random-state helpers shared by harness processes"""
 
 
-def mk_randstate(seed):
+def mk_randstate(seed, strval=None):
     from vsc.model.rand_state import RandState
+    if strval is not None:
+        return RandState.mkFromSeed(seed, strval)
     return RandState.mkFromSeed(seed)
